@@ -88,7 +88,9 @@ def seam_vector(rng, canonical=False):
         return {"rand": 0, "time": 0, "timestep": 1, "pid": 4242, "host": "canonical", "heappad": 0, "heapfrag": 0, "stack_kb": 8192, "env": {}}
     env = {}
     for _ in range(rng.range(0, 12)):
-        env[rng.choice(ENV_NAMES)] = rng.choice(ENV_VALUES)
+        name = rng.choice(ENV_NAMES)
+        # allocator tunables get sane numeric values (a threshold of 0/1 would turn every allocation into an mmap)
+        env[name] = rng.choice(["4096", "16384", "65536", "165"]) if name.startswith("MALLOC_") else rng.choice(ENV_VALUES)
     for i in range(rng.range(0, 6)):
         env["V%d_%d" % (i, rng.below(1000))] = "z" * rng.below(rng.choice([8, 64, 1024, 20000]))
     return {
